@@ -470,7 +470,62 @@ def ob_append_circuit_loop(a):
     return [res(name, PROVED, backend="pyvc-opaque+static", cases=n_cases)]
 
 
-OBS = {"append_circuit_loop": ob_append_circuit_loop, "append_circuit": ob_append_circuit, "append_circuit_raises": ob_append_circuit_raises, "add": ob_add, "iadd": ob_iadd, "repeat": ob_repeat,
+def ob_repeat_loop(a):
+    """Loop-invariant cut of QCircuit.repeat(n): INVARIANT after i iterations n_qc.gates = self.gates x (i + 1), sharing no list with self or o.
+    STEP: from an arbitrary accumulated circuit (a sentinel prefix in n_qc.gates / gates_computed) one iteration appends a FRESH copy of the
+    operand's gates after the prefix and touches neither the prefix, nor `o`, nor `self`.  With INIT (n_qc = self.copy(), checked by the copy
+    obligations) this gives repeat(n) for every n >= 1."""
+    import ast
+    import inspect
+    import textwrap
+    from qlasskit.qcircuit import QCircuit
+    nq, length = a
+    name = f"C14.repeat.loop-step[{nq}q,{length} gates]"
+    fn = QCircuit.repeat
+    lines, start = inspect.getsourcelines(fn)
+    tree = ast.parse(textwrap.dedent("".join(lines)))
+    ast.increment_lineno(tree, start - 1)
+    loops = [n for n in ast.walk(tree) if isinstance(n, ast.For)]
+    if len(loops) != 1:
+        return [res(name, UNDECIDED, backend="pyvc", detail=f"{len(loops)} loops in repeat: the invariant no longer matches the code")]
+    line = loops[0].lineno
+    cases = 0
+    for ws in wire_lists(nq, length, 2 if length <= 2 else 1):
+        A = mk_circuit(nq, ws)
+        sa = snapshot(A)
+        prefix = (Token("PREFIX"), [], None)
+        seen = {}
+        eng = pyvc.Engine()
+
+        def ctl(vc, iterable, fl):
+            acc = fl["n_qc"]
+            seen["o"] = fl["o"]
+            seen["o_snap"] = snapshot(fl["o"])
+            acc.gates[:] = [prefix]
+            acc.gates_computed[:] = [prefix]
+
+            def gen():
+                yield 0
+                raise pyvc.LoopCut(acc)
+            return gen()
+        eng.loop_controllers[line] = ctl
+        paths = eng.explore(lambda vc: (fn, [A, 3], {}))
+        cases += 1
+        ok = len(paths) == 1 and paths[0].kind == "loopcut"
+        if ok:
+            acc = paths[0].value
+            ok = (acc.gates[0] is prefix and listview(acc.gates[1:]) == sa[0] and listview(acc.gates_computed[1:]) == sa[0]
+                  and snapshot(A) == sa and snapshot(seen["o"]) == seen["o_snap"]
+                  and not ({id(w) for _, w, _ in acc.gates[1:]} & ({id(w) for _, w, _ in A.gates} | {id(w) for _, w, _ in seen["o"].gates}))
+                  and not ({id(t) for t in acc.gates[1:]} & {id(t) for t in seen["o"].gates}))
+        if not ok:
+            return [res(name, REFUTED, backend="pyvc-opaque", replayed=True,
+                        replay=dict(gates=sa[0], observed=str(listview(paths[0].value.gates[1:]) if paths and paths[0].kind == "loopcut" else paths[0].value)[:300],
+                                    expected="prefix ++ a fresh copy of the operand's gates; operand and `o` untouched", call="one iteration of the loop of QCircuit.repeat from a havocked accumulator"))]
+    return [res(name, PROVED, backend="pyvc-opaque", cases=cases)]
+
+
+OBS = {"repeat_loop": ob_repeat_loop, "append_circuit_loop": ob_append_circuit_loop, "append_circuit": ob_append_circuit, "append_circuit_raises": ob_append_circuit_raises, "add": ob_add, "iadd": ob_iadd, "repeat": ob_repeat,
        "copy": ob_copy, "append": ob_append, "remove_identities": ob_remove_identities, "qft": ob_qft}
 
 
@@ -499,6 +554,8 @@ def run(tier, only=None):
                 jobs.append(("append_circuit", (nqo, length, nqs)))
     jobs.append(("append_circuit", (3, 1, 3)))
     jobs.append(("append_circuit_raises", None))
+    for nq_, ln_ in ((2, 0), (2, 1), (2, 2), (3, 1), (3, 2)):
+        jobs.append(("repeat_loop", (nq_, ln_)))
     jobs.append(("append_circuit_loop", ("gates",)))
     jobs.append(("append_circuit_loop", ("gates_computed",)))
     for nq in (2, 3):
@@ -533,7 +590,7 @@ def run(tier, only=None):
     rep.under_contract(QCircuit.append_circuit, QCircuit.__iadd__, QCircuit.__add__, QCircuit.repeat, QCircuit.copy, QCircuit.append,
                        QCircuit.qft, QCircuit.iqft, QCircuitEnhanced.remove_identities)
     rep.extra.update(shape_space=[dict(what="gate lists of length <= %d over <= 3 qubits with every wire assignment and every qubit remapping; gate objects and parameters opaque" % L,
-                                       complete="per length; for append_circuit the length bound is lifted by the loop-step obligations (invariant cut); for repeat / __add__ / copy it is not")],
+                                       complete="per length; for append_circuit the length bound, and for repeat the bound on n, are lifted by loop-step obligations (invariant cuts); the gate-list length of repeat / __add__ / copy is not")],
                      lemma="act(gs ++ hs) = act(hs) o act(gs); (g1...gk)^-1 = gk^-1...g1^-1 - two lines of standard mathematics, not machine-checked")
     rep.trusted = ["CPython executing the instrumented source", "opacity guard: a token raises on every inspection, so a passing run cannot depend on gate content"]
     rep.assumptions = ["A8 standard meaning of gate names (only used for remove_identities' numeric action and for 'CP(-t) inverts CP(t)')",
